@@ -52,6 +52,9 @@ package runner
 //@   loop 1   invariant [cfg]    hashCfg.Checks == nil && hashCfg.Initialisms == a.Package.Config.Merge(r.cfg).Initialisms && hashCfg.DotImportWhitelist == a.Package.Config.Merge(r.cfg).DotImportWhitelist && hashCfg.HTTPStatusCodeWhitelist == a.Package.Config.Merge(r.cfg).HTTPStatusCodeWhitelist
 //@   loop 1   invariant [deps]   forall j int :: {a.deps[j]} 0 <= j && j < nd ==> istype(a.deps[j], *packageAction) && h.input[6 + j] == frec("vetout %q %x\n", args(astype(a.deps[j], *packageAction).Package.PkgPath, cache.contentHash(astype(a.deps[j], *packageAction).vetx)))
 //@   at call cache.(*Hash).Sum#1 assert [key] len(h.input) == 6 + len(a.deps) && hashCfg.Checks == nil
+// a package analysed only for its facts has no results: nothing may be stored under its
+// "results" key, or a later run in which it is a target would get a (wrong, empty) hit
+//@   at call (*Runner).writeCacheGob#1 assert [targetonly] !a.factsOnly
 
 //@ prop C05
 // getCachedFiles reports success only if every id was found: each output then names a file that
